@@ -67,7 +67,7 @@ func TestVerifC19(t *testing.T) {
 
 	// ---- (a) sequential ----
 	t0 := time.Now()
-	nseq := kit.Scale(100, 400)
+	nseq := kit.Scale(100, 250)
 	// histories are independent (own databases and model each): a few workers
 	// share them in the quick tier; the verdict does not depend on the count
 	workers := kit.Scale(4, 1)
@@ -148,7 +148,7 @@ func TestVerifC19(t *testing.T) {
 
 	// ---- (b) concurrent ----
 	t1 := time.Now()
-	nconc := kit.Scale(80, 300)
+	nconc := kit.Scale(80, 200)
 	cs := map[string]*concStats{"memory": {}, "filesystem": {}}
 	for idx := 0; idx < nconc; idx++ {
 		if only >= 0 && only != 1000000+idx {
